@@ -24,6 +24,7 @@ import (
 	"strconv"
 	"sync"
 	"sync/atomic"
+	"syscall"
 	"time"
 
 	"verif/sim/props"
@@ -44,8 +45,21 @@ type workerResult struct {
 	Trouble    string              `json:"trouble,omitempty"`
 }
 
+// cpuTime is the CPU time this process has consumed. The hang watchdog
+// counts CPU seconds, not wall seconds: a reader that spins burns CPU, a
+// worker that is merely starved on a busy machine does not, and must not be
+// reported as a hang of the code under test.
+func cpuTime() time.Duration {
+	var ru syscall.Rusage
+	if syscall.Getrusage(syscall.RUSAGE_SELF, &ru) != nil {
+		return 0
+	}
+	return time.Duration(ru.Utime.Nano() + ru.Stime.Nano())
+}
+
 const (
-	hangAfter  = 20 * time.Second
+	hangAfter  = 20 * time.Second // of CPU time without a progress beacon
+	stallAfter = 15 * time.Minute // of wall time without a progress beacon: trouble, never a verdict
 	heapLimit  = 1536 << 20
 	shrinkMax  = 2500
 	shrinkTime = 45 * time.Second
@@ -156,22 +170,29 @@ func cmdWorker(args []string) int {
 	var mu sync.Mutex
 	curCase, curSeed := -1, uint64(0)
 	go func() {
-		last, lastChange := uint64(0), time.Now()
+		last, lastChange, lastCPU := uint64(0), time.Now(), cpuTime()
 		var ms runtime.MemStats
 		for {
 			time.Sleep(250 * time.Millisecond)
 			b := atomic.LoadUint64(&beacon)
 			if b != last || atomic.LoadInt32(&inFlight) == 0 {
-				last, lastChange = b, time.Now()
+				last, lastChange, lastCPU = b, time.Now(), cpuTime()
 			}
 			runtime.ReadMemStats(&ms)
-			hung := time.Since(lastChange) > hangAfter
+			hung := cpuTime()-lastCPU > hangAfter
 			oom := ms.HeapAlloc > heapLimit
+			if !hung && !oom && time.Since(lastChange) > stallAfter {
+				mu.Lock()
+				res.Trouble = fmt.Sprintf("watchdog: no progress for %v of wall time in case %d (machine stalled?)", stallAfter, curCase)
+				res.Counters = stats.Counters
+				writeRes()
+				os.Exit(4)
+			}
 			if !hung && !oom {
 				continue
 			}
 			mu.Lock()
-			kind, msg := "hang", fmt.Sprintf("no progress for %v inside one read", hangAfter)
+			kind, msg := "hang", fmt.Sprintf("no progress for %v of CPU time inside one read", hangAfter)
 			if oom {
 				kind, msg = "oom", fmt.Sprintf("heap grew to %d MiB inside one read", ms.HeapAlloc>>20)
 			}
@@ -275,7 +296,13 @@ func finalize(p *props.Property, ctx *props.Ctx, t *tape.Tape, v *report.Violati
 	if same(vt) == nil {
 		return nil, fmt.Sprintf("NONDETERMINISTIC: case %d of %s fired %s (%s) but its tape does not reproduce it", v.Case, p.ID, v.Invariant, v.Message)
 	}
-	shrunk, evals := tape.Shrink(vt, func(c []uint64) bool { return same(c) != nil }, shrinkMax, shrinkTime)
+	kp := v.KeepPrefix
+	if kp > len(vt) {
+		kp = len(vt)
+	}
+	head := append([]uint64(nil), vt[:kp]...)
+	tail, evals := tape.Shrink(vt[kp:], func(c []uint64) bool { return same(append(append([]uint64(nil), head...), c...)) != nil }, shrinkMax, shrinkTime)
+	shrunk := append(head, tail...)
 	fv := same(shrunk)
 	if fv == nil { // cannot happen: Shrink only keeps tapes that passed
 		fv, shrunk = same(vt), vt
@@ -286,7 +313,27 @@ func finalize(p *props.Property, ctx *props.Ctx, t *tape.Tape, v *report.Violati
 	if fv.Signature == "" {
 		fv.Signature = fv.Invariant
 	}
+	fv.Trace = withAsFound(fv.Trace, v)
 	return fv, ""
+}
+
+// withAsFound keeps, below the minimised trace, how the case looked when it
+// was found (which file, which faults, which schedule), which minimisation
+// may have simplified away.
+func withAsFound(minimised []string, found *report.Violation) []string {
+	out := append([]string{}, minimised...)
+	if len(found.Trace) == 0 {
+		return out
+	}
+	out = append(out, "--- as found, before minimisation: "+found.Message)
+	n := len(found.Trace)
+	if n > 12 {
+		n = 12
+	}
+	for _, l := range found.Trace[:n] {
+		out = append(out, "    "+l)
+	}
+	return out
 }
 
 // ---------------------------------------------------------------------------
@@ -356,7 +403,7 @@ func cmdRun(args []string) int {
 	trouble := []string{}
 	for i := 0; i < *workers; i++ {
 		d := <-ch
-		if d.code != 0 && d.code != 3 {
+		if d.code != 0 && d.code != 3 && d.code != 4 {
 			trouble = append(trouble, fmt.Sprintf("worker %d exited with %d (%v)", d.w, d.code, d.err))
 		}
 	}
@@ -554,6 +601,7 @@ func shrinkInChildren(p *props.Property, v *report.Violation, repo string) (*rep
 	if fv.Signature == "" {
 		fv.Signature = fv.Invariant
 	}
+	fv.Trace = withAsFound(fv.Trace, v)
 	return fv, ""
 }
 
@@ -638,7 +686,7 @@ func cmdReplay(args []string) int {
 	ctx := props.NewCtx(v.Tier, nil, corpus, &beacon)
 	resCh := make(chan *report.Violation, 1)
 	go func() { resCh <- p.Run(ctx, tape.Replay(v.Tape)) }()
-	last, lastChange := uint64(0), time.Now()
+	last, lastCPU := uint64(0), cpuTime()
 	var ms runtime.MemStats
 	for {
 		select {
@@ -659,10 +707,10 @@ func cmdReplay(args []string) int {
 		case <-time.After(250 * time.Millisecond):
 			b := atomic.LoadUint64(&beacon)
 			if b != last {
-				last, lastChange = b, time.Now()
+				last, lastCPU = b, cpuTime()
 			}
 			runtime.ReadMemStats(&ms)
-			hung, oom := time.Since(lastChange) > hangAfter, ms.HeapAlloc > heapLimit
+			hung, oom := cpuTime()-lastCPU > hangAfter, ms.HeapAlloc > heapLimit
 			if hung || oom {
 				kind := "hang"
 				if oom {
